@@ -14,7 +14,7 @@ use crate::peers::{Act, HttpPeer, Script, Seen};
 use crate::runner::{violation, RunCtx, RunReport, Stats, Verdict};
 use crate::tlspeer::{self, ConnectProxy, ProxyLog, TlsLog, TlsPeer};
 
-const MATRIX: u64 = 4 * 2 * 2 * 2 * 4 * 3 * 7;
+const MATRIX: u64 = 4 * 2 * 2 * 2 * 4 * 3 * 8;
 /// https URL through an https proxy (TLS inside TLS): outer identity x inner identity x flags
 const TUNNEL_CELLS: u64 = 4 * 3 * 2 * 2;
 pub const CELLS: u64 = MATRIX + TUNNEL_CELLS;
@@ -52,6 +52,10 @@ enum Place {
     /// the other way round: a strict sibling of the same session is sent first, then the request under test
     /// with the flags and the root set on it
     AfterStrictSibling,
+    /// the session first waives both checks and makes a request (with no builder or clone alive afterwards,
+    /// so that its settings are changed in place), is then set to the cell's values, and makes the request
+    /// under test
+    SessionChangedBetweenRequests,
 }
 
 const OTHER_CA_PEM: &str = include_str!("../../../certs/otherca.pem");
@@ -248,7 +252,7 @@ pub fn scenario(g: &mut G, ctx: &RunCtx) -> RunReport {
     let root = [Root::None, Root::Ours, Root::OtherAfterDecoy, Root::Presented][take(4) as usize];
     let root_added = root != Root::None;
     let route = [Route::Direct, Route::ViaConnect, Route::HttpsProxy][take(3) as usize];
-    let place = [Place::Session, Place::Request, Place::Sibling, Place::Override, Place::Toggle, Place::SiblingSent, Place::AfterStrictSibling][take(7) as usize];
+    let place = [Place::Session, Place::Request, Place::Sibling, Place::Override, Place::Toggle, Place::SiblingSent, Place::AfterStrictSibling, Place::SessionChangedBetweenRequests][take(8) as usize];
     let fixture = format!(
         "{}{}",
         match chain {
@@ -260,7 +264,10 @@ pub fn scenario(g: &mut G, ctx: &RunCtx) -> RunReport {
         if name_matches { "" } else { "-wrongname" }
     );
     // effective settings of the request under test
-    let (eff_certs, eff_hosts, eff_root) = if place == Place::Sibling || place == Place::SiblingSent { (false, false, false) } else { (accept_certs, accept_hosts, root_added) };
+    // a sent sibling in the "other CA" cells adds *our* CA while the request under test adds the other one:
+    // two siblings with one added root each, and not the same one
+    let two_cas = place == Place::SiblingSent && root == Root::OtherAfterDecoy;
+    let (eff_certs, eff_hosts, eff_root) = if place == Place::Sibling || place == Place::SiblingSent { (false, false, two_cas) } else { (accept_certs, accept_hosts, root_added) };
     // the unrelated CA is the issuer of the "unknown issuer" fixtures: adding it makes exactly those chains valid
     let chain_ok = eff_root && ((chain == Chain::ToAddedRoot && root == Root::Ours) || (chain == Chain::UnknownIssuer && root == Root::OtherAfterDecoy));
     let want_ok = eff_certs || (chain_ok && (name_matches || eff_hosts));
@@ -401,9 +408,19 @@ pub fn scenario(g: &mut G, ctx: &RunCtx) -> RunReport {
                 sib = sib.danger_accept_invalid_hostnames(true);
             }
             if root_added {
-                sib = sib.add_root_certificate(my_root());
+                sib = sib.add_root_certificate(if two_cas { cert_of(tlspeer::CA_PEM) } else { my_root() });
             }
             let _ = sib.send().map(|r| r.bytes());
+        }
+        if place == Place::SessionChangedBetweenRequests {
+            session.danger_accept_invalid_certs(true);
+            session.danger_accept_invalid_hostnames(true);
+            let _ = session.get(url).send().map(|r| r.bytes());
+            session.danger_accept_invalid_certs(accept_certs);
+            session.danger_accept_invalid_hostnames(accept_hosts);
+            if root_added {
+                session.add_root_certificate(my_root());
+            }
         }
         if place == Place::AfterStrictSibling {
             let _ = session.get(url).send().map(|r| r.bytes());
@@ -411,6 +428,9 @@ pub fn scenario(g: &mut G, ctx: &RunCtx) -> RunReport {
         // TLS sessions the peer has seen before the request under test
         let sessions_before = tls_log_in.lock().unwrap().sessions.len();
         let mut rb = session.get(url).header("X-Marker", "request-under-test");
+        if two_cas {
+            rb = rb.add_root_certificate(cert_of(OTHER_CA_PEM));
+        }
         if place == Place::AfterStrictSibling {
             if accept_certs {
                 rb = rb.danger_accept_invalid_certs(true);
